@@ -24,7 +24,7 @@ EPS = np.finfo(float).eps
 
 def _behaviours(npt, maxlen, num, tag):
     cfg = write_cfg(os.path.join(OUT, f"book-{tag}.cfg"), spec="BSpec",
-                    constants=dict(Npt=npt, NDirs=12, MaxLen=maxlen), invariants=["Recorded", "Distinct", "Export"])
+                    constants=dict(Npt=npt, NDirs=12, MaxLen=maxlen, NModels=4), invariants=["Recorded", "Distinct", "SameGeneration", "Export"])
     r = run_tlc("InterpBook", cfg, tag=f"book-{tag}", simulate=f"num={num}", depth=maxlen + 1,
                 seed_=seed() + npt, workers=4, timeout=1800)
     if r["violated"]:
@@ -53,6 +53,7 @@ def _replay_chunk(args):
     from .common import import_cobyqa
     import_cobyqa()
     from cobyqa.models import Models, build_system
+    import cobyqa.models as MD
     from cobyqa.problem import (ObjectiveFunction, BoundConstraints, LinearConstraints,
                                 NonlinearConstraints, Problem)
     from cobyqa.main import _set_default_options
@@ -82,6 +83,18 @@ def _replay_chunk(args):
         where = {"n": n, "m": m, "npt": npt, "scale": sc}
 
         condmax = [1.0]
+        # generation counters: Quadratic.update calls received by each model object
+        gens = {}
+        orig_update = MD.Quadratic.update
+
+        def counting_update(self, *a, **k):
+            gens[id(self)] = gens.get(id(self), 0) + 1
+            return orig_update(self, *a, **k)
+        MD.Quadratic.update = counting_update
+
+        def model_objs():
+            return [models._fun] + list(models._cub) + list(models._ceq)
+        specgen = [0]
 
         def check(after, idx):
             nonlocal worst, nill
@@ -109,14 +122,10 @@ def _replay_chunk(args):
                 rel.append((name, r / sc))
             if ill:
                 # Once a near-duplicate point has made the system numerically singular (cond > 1e13)
-                # "eps times conditioning" allows any error, and the error persists in the recursion
-                # until the models are rebuilt.  What can still be decided: all models went through the
-                # same solves, so their relative residuals are comparable; a model that was NOT updated
-                # (e.g. skipped by a short-circuit) stands out by many orders of magnitude.
-                rels = [rr for _, rr in rel]
-                if len(rels) >= 2 and max(rels) > 1e8 * max(min(rels), 1e-9):
-                    name = max(rel, key=lambda t: t[1])[0]
-                    return ("C12.resid." + after, f"model {name}: relative residual {max(rels):.3e} while another model has {min(rels):.3e} (cond {cond:.2e}) after action {idx}: not all models were updated")
+                # "eps times conditioning" allows any error, and the huge cancelling coefficients such a
+                # state may leave behind are amplified by later shifts and updates: nothing about the
+                # size of the residuals can be decided until the models are rebuilt.  That every model
+                # is updated all the same is decided exactly by the generation counters (below).
                 return None
             tol = 500.0 * EPS * max(n, npt) * condmax[0]
             for name, rr in rel:
@@ -141,19 +150,29 @@ def _replay_chunk(args):
                     fv, cu, ce = pb(x_new, 0.0)
                     coords[h["id"]] = x_new.copy()
                     vals[h["id"]] = (float(fv), np.array(cu, float), np.array(ce, float))
+                    before = [gens.get(id(q), 0) for q in model_objs()]
                     models.update_interpolation(h["k"] - 1, x_new, float(fv), cu, ce)
                     pt[h["k"] - 1] = h["id"]
+                    after_g = [gens.get(id(q), 0) for q in model_objs()]
+                    specgen[0] += 1
+                    if any(a_ - b_ != 1 for a_, b_ in zip(after_g, before)):
+                        res = ("C12.generation", f"action {idx + 1} {h['a']}: updates received per model {[a_ - b_ for a_, b_ in zip(after_g, before)]}, the specification says 1 each")
+                        break
                 elif h["a"] == "shift":
                     models.shift_x_base(np.copy(coords[h["from"]]), options)
                 elif h["a"] == "reset":
                     models.reset_models()
                     condmax[0] = 1.0          # the models are rebuilt from the recorded values
+                    specgen[0] = 0
             except np.linalg.LinAlgError:
                 break          # an ill-defined system may be reported; the behaviour ends here
             except Exception as ex:
                 res = ("C12.raise", f"{type(ex).__name__}: {ex} at action {idx + 1} {h}")
                 break
             res = check(h["a"], idx + 1)
+        MD.Quadratic.update = orig_update
+        if res is None and rec.get("gen") and rec["gen"][0] != specgen[0]:
+            res = ("C12.generation", f"generation counter {specgen[0]} differs from the specification's {rec['gen'][0]}")
         if res:
             bad.append((res[0], dict(where, hist=rec["hist"][:idx + 1] if rec["hist"] else [], what=res[1])))
     return bad, nact, worst, nill
@@ -204,6 +223,6 @@ def check(pid, tier):
     cov["samples"] = cov["samples"] + rp["samples"]
     rc = v.finish()
     write_evidence("C12", tier, "model_checking", cov, time.time() - t0, len(v.violations),
-                   checks.ASSUME_T + ["interpolation residuals are measured by the harness; tolerance 500 eps max(n,npt) cond(W) (largest conditioning since the last rebuild) relative to the largest recorded value; once a near-duplicate point has made the system numerically singular (cond > 1e13) only the comparability of the residuals of the different models is decided in the replay (a model that was not updated stands out by > 8 orders of magnitude) and the clause is skipped in recorded runs",
+                   checks.ASSUME_T + ["interpolation residuals are measured by the harness; tolerance 500 eps max(n,npt) cond(W) (largest conditioning since the last rebuild) relative to the largest recorded value; once a near-duplicate point has made the system numerically singular (cond > 1e13) the size of the residuals is not decided any more (replay and recorded runs) until the models are rebuilt; that every model receives exactly one update per replacement is decided exactly by generation counters (InterpBook.tla gen, clause C12.generation)",
                                       "behaviours come from TLC -simulate on InterpBook.tla (finite sample of the sequences of length <= 60)"])
     return rc
